@@ -33,6 +33,12 @@ func (h *invocationResponseHandler) ServeHTTP(writer http.ResponseWriter, reques
 	}
 
 	runtime := h.registrationService.GetRuntime()
+	if runtime == nil {
+		// no runtime is registered (not launched yet, or cleared by a reset): the call is illegal in this state
+		rendering.RenderForbiddenWithTypeMsg(writer, request, rendering.ErrorTypeInvalidStateTransition, StateTransitionFailedForRuntimeMessageFormat,
+			runtimeNotRegisteredStateName, core.RuntimeInvocationResponseStateName, runtimeNotRegisteredError)
+		return
+	}
 	if err := runtime.InvocationResponse(); err != nil {
 		log.Warn(err)
 		rendering.RenderForbiddenWithTypeMsg(writer, request, rendering.ErrorTypeInvalidStateTransition, StateTransitionFailedForRuntimeMessageFormat,
